@@ -51,6 +51,9 @@ _TAG_TYPES = {
     'np.int64': {'int64', 'integer', 'signedinteger', 'number', 'generic', 'Integral', 'Real', 'Number'},
     'np.int32': {'int32', 'integer', 'signedinteger', 'number', 'generic', 'Integral', 'Real', 'Number'},
     'np.uint16': {'uint16', 'integer', 'unsignedinteger', 'number', 'generic', 'Integral', 'Real', 'Number'},
+    'np.uint8': {'uint8', 'integer', 'unsignedinteger', 'number', 'generic', 'Integral', 'Real', 'Number'},
+    'np.uint32': {'uint32', 'integer', 'unsignedinteger', 'number', 'generic', 'Integral', 'Real', 'Number'},
+    'np.uint64': {'uint64', 'integer', 'unsignedinteger', 'number', 'generic', 'Integral', 'Real', 'Number'},
 }
 
 
